@@ -116,4 +116,30 @@ CHECKS = {
              "thorough": {"checks": 1500, "shards": 16, "timeout": 3000}},
         ],
     },
+    "C02": {
+        "level": "fault_enumeration",
+        "level_text": ("Each case runs a fault-free reference transfer to learn how many bytes flow on every stream and direction, then "
+                       "the same transfer with one injected fault: connection lost / closed by either side at a "
+                       "drawn byte position of any stream and direction (quick: sampled; all positions of small fixed workloads are "
+                       "enumerated with stride 3, thorough stride 1), a bit flip in a chunk payload or checksum, abort (cancel+close) of "
+                       "either side at a drawn hook hit, source file shortened or deleted after the scan (before or during the run), "
+                       "obstructed output paths; plus a delay plan on the receiver's racing exit paths. Oracle: receiver nil => whole "
+                       "tree identical to the tree as scanned; sender nil => a FileDone{ok} for every file on the wire and identical "
+                       "tree; both return before the idle watchdog (4 s without any byte) fires."),
+        "level_note": "Trusted: memnet's close/loss semantics (modelled on quic-go: reads fail at once after close), the wire decoder written for the harness; real packet loss/reordering is not simulated.",
+        "technique": "fault injection at generated and enumerated byte positions / hook hits over an in-memory transport, with whole-tree and wire-level oracles (rapid + bounded enumeration)",
+        "rule": ("case = small workload (1-4 files, <= 6 chunks) x configuration x one fault (kind, connection, stream, direction, "
+                 "position as fraction of the reference flow / hook-hit index / file and new length) x exit-path delay plan; "
+                 "positions unit: every stride-th byte offset of every stream x direction x 3 connection-fault kinds for fixed "
+                 "workloads. Non-trivial = the fault actually struck (offset < bytes that flowed, hook hit reached, mutation applied); "
+                 "distinct by fault kind/position and case fingerprint."),
+        "assumptions": ["abort = context cancel followed by closing that side's connection (what the applications do)",
+                        "success = endpoint function returns nil"],
+        "exhaustive_if_units": ["positions"],
+        "units": [
+            {"name": "xfer", "pkg": X, "run": "^TestVerifC02",
+             "quick": {"checks": 300, "shards": 8, "timeout": 900},
+             "thorough": {"checks": 2500, "shards": 16, "timeout": 3400}},
+        ],
+    },
 }
